@@ -34,7 +34,7 @@ func (fc *FCtx) constVal(tv types.TypeAndValue) (Val, bool) {
 	case constant.Int:
 		bi, _ := new(big.Int).SetString(tv.Value.ExactString(), 10)
 		if b, ok := tv.Type.Underlying().(*types.Basic); ok && b.Info()&types.IsFloat != 0 {
-			return Val{}, false
+			return fc.floatConst(tv.Value.ExactString(), tv.Type), true
 		}
 		return Val{T: bigLit(bi), S: SInt, GoT: tv.Type}, true
 	case constant.Bool:
@@ -45,6 +45,9 @@ func (fc *FCtx) constVal(tv types.TypeAndValue) (Val, bool) {
 	case constant.String:
 		return Val{T: fc.U.StrLit(constant.StringVal(tv.Value)), S: SStr, GoT: tv.Type}, true
 	case constant.Float:
+		if b, ok := tv.Type.Underlying().(*types.Basic); ok && b.Info()&types.IsFloat != 0 {
+			return fc.floatConst(tv.Value.ExactString(), tv.Type), true
+		}
 		if b, ok := tv.Type.Underlying().(*types.Basic); ok && b.Info()&types.IsInteger != 0 {
 			if i := constant.ToInt(tv.Value); i.Kind() == constant.Int {
 				bi, _ := new(big.Int).SetString(i.ExactString(), 10)
@@ -132,6 +135,10 @@ func (fc *FCtx) pkgVar(o *types.Var) Val {
 		if isByteSliceType(o.Type()) {
 			return fc.keyConst(o)
 		}
+		if b, ok := o.Type().Underlying().(*types.Basic); ok && b.Info()&types.IsString != 0 {
+			fc.note("package-level string variable " + o.Pkg().Name() + "." + o.Name() + " read as an arbitrary constant")
+			return Val{T: fc.U.Const("pkgstr_"+sanitize(o.Pkg().Name()+"_"+o.Name()), SStr), S: SStr, GoT: o.Type()}
+		}
 		if o.Pkg().Path() == "encoding/binary" {
 			s := fc.U.opaque("ByteOrder")
 			return Val{T: fc.U.Const("binary_"+o.Name(), s), S: s, GoT: o.Type()}
@@ -209,8 +216,9 @@ func (fc *FCtx) evalUnary(e *ast.UnaryExpr, st *State) Val {
 		return Val{T: not(fc.evalBool(e.X, st)), S: SBool, GoT: types.Typ[types.Bool]}
 	case token.SUB:
 		x := fc.eval(e.X, st)
-		if x.S.Kind == KFloat {
-			return Val{T: "(fp.neg " + x.T + ")", S: SFloat, GoT: x.GoT}
+		if x.S.Name == "F64" {
+			fc.U.Fun("f64_neg", []*Sort{x.S}, x.S)
+			return Val{T: app("f64_neg", x.T), S: x.S, GoT: x.GoT}
 		}
 		zero := Val{T: "0", S: SInt, GoT: x.GoT}
 		return fc.arith(token.SUB, zero, x, fc.info().TypeOf(e), st, e.Pos())
@@ -265,6 +273,14 @@ func (fc *FCtx) evalBinary(e *ast.BinaryExpr, st *State) Val {
 	}
 	x := fc.eval(e.X, st)
 	y := fc.eval(e.Y, st)
+	if x.S.Name == "F64" || y.S.Name == "F64" {
+		switch e.Op {
+		case token.EQL, token.NEQ, token.LSS, token.LEQ, token.GTR, token.GEQ:
+			return Val{T: fc.fcmp(e.Op, x, y), S: SBool, GoT: boolT}
+		case token.ADD, token.SUB, token.MUL, token.QUO:
+			return fc.farith(e.Op, x, y, fc.info().TypeOf(e))
+		}
+	}
 	switch e.Op {
 	case token.EQL:
 		return Val{T: fc.eqTerm(x, y), S: SBool, GoT: boolT}
@@ -389,7 +405,7 @@ func machineIntName(t types.Type) string {
 // arith implements Go integer arithmetic with explicit wrap-around (or an overflow obligation
 // under //@ nooverflow).
 func (fc *FCtx) arith(op token.Token, x, y Val, t types.Type, st *State, pos token.Pos) Val {
-	if x.S.Kind == KFloat || y.S.Kind == KFloat {
+	if x.S.Name == "F64" || y.S.Name == "F64" {
 		return fc.farith(op, x, y, t)
 	}
 	if x.S.Kind != KInt || y.S.Kind != KInt {
@@ -562,6 +578,17 @@ func (fc *FCtx) evalSlice(e *ast.SliceExpr, st *State) Val {
 	}
 	if e.Slice3 {
 		oos("3-index slice")
+	}
+	if rs0 := fc.U.SortOf(fc.info().TypeOf(e)); isBz(rs0) {
+		// slicing a byte array: abstract conversion to a byte string of the same length
+		if e.Low != nil || e.High != nil {
+			oos("partial slice of a byte array")
+		}
+		fn := "bz_of_" + sanitize(base.S.Name)
+		fc.U.Fun(fn, []*Sort{base.S}, rs0)
+		r := Val{T: app(fn, base.T), S: rs0, GoT: fc.info().TypeOf(e)}
+		st.assume(fmt.Sprintf("(and (= (bz_len %s) %s) (not (= %s bz_nil)))", r.T, slLen(base), r.T))
+		return r
 	}
 	lo := "0"
 	if e.Low != nil {
